@@ -44,7 +44,7 @@ TIE_OPERATION = (TIE("OpAdd", "tie_calculus_addition") + TIE("OpSub", "tie_calcu
 
 
 PROPS = {
-    "C01": dict(level="proof", theorems=T("C01", "C01_normal", "C01_fast", "C01_total_normal", "C01_total_fast", "C01_zero") + T("EndToEnd", "E2E_write_read"), gens=["C01", "C01_malformed"], gens_thorough=["C01", "C01_malformed", "C01_exhaustive"],
+    "C01": dict(level="proof", theorems=T("C01", "C01_normal", "C01_fast", "C01_total_normal", "C01_total_fast", "C01_zero") + T("EndToEnd", "E2E_write_read"), gens=["C01", "C01_malformed", "GENSW"], gens_thorough=["C01", "C01_malformed", "C01_exhaustive", "GENSW"],
                 rule="seeded well-formed graphs (arc subsets of de Bruijn graphs k<=3 quick / k<=5 thorough, mixed "
                      "out-degrees) x start x permutation table x message x mode x check length; a case is one encode "
                      "line; non-trivial = message value > 0 and the walk visits a branching vertex; distinct = hash "
